@@ -135,8 +135,8 @@ func (w *zzDownWorld) assertInvariant(tag string) {
 func zzC04aAssignDataID() {
 	w := zzNewDownWorld()
 	d := w.d
-	w.fillDataIDTable(2)
-	n := vf.Choose("new.n", 4)
+	w.fillDataIDTable(2 + zzDeep)
+	n := vf.Choose("new.n", 4+zzDeep)
 	var ids []*message.DataID
 	for i := 0; i < n; i++ {
 		ids = append(ids, zzDataID("n"+string(rune('0'+i))))
@@ -185,7 +185,7 @@ func zzC04aAssignDataID() {
 func zzC04bAssignUpstream() {
 	w := zzNewDownWorld()
 	d := w.d
-	w.fillUpstreamTable(2)
+	w.fillUpstreamTable(2 + zzDeep)
 	in := zzInfo("incoming")
 	known := false
 	for _, v := range d.upstreamInfos {
@@ -234,7 +234,7 @@ func zzC04cFlushAck() {
 	last := vf.U32("last.ackid")
 	vf.Assume(last != 0xFFFFFFFF)
 	d.chunkAckIDSequence = newSequenceNumberGenerator(last)
-	nr := vf.Choose("results.n", 3)
+	nr := vf.Choose("results.n", 3+zzDeep)
 	var results []*message.DownstreamChunkResult
 	for i := 0; i < nr; i++ {
 		l := "r" + string(rune('0'+i))
@@ -242,7 +242,7 @@ func zzC04cFlushAck() {
 		results = append(results, r)
 		d.resultAckBuffer = append(d.resultAckBuffer, r)
 	}
-	nu := vf.Choose("upaliases.n", 3)
+	nu := vf.Choose("upaliases.n", 3+zzDeep)
 	ups := map[uint32]*message.UpstreamInfo{}
 	for i := 0; i < nu; i++ {
 		l := "u" + string(rune('0'+i))
@@ -253,7 +253,7 @@ func zzC04cFlushAck() {
 		ups[a] = in
 		d.upstreamInfoAckBuffer[a] = in
 	}
-	nd := vf.Choose("idaliases.n", 3)
+	nd := vf.Choose("idaliases.n", 3+zzDeep)
 	ids := map[uint32]*message.DataID{}
 	for i := 0; i < nd; i++ {
 		l := "i" + string(rune('0'+i))
@@ -304,8 +304,8 @@ func zzC04cFlushAck() {
 func zzC03aRead() {
 	w := zzNewDownWorld()
 	d := w.d
-	w.fillDataIDTable(2)
-	w.fillUpstreamTable(1)
+	w.fillDataIDTable(2 + zzDeep)
+	w.fillUpstreamTable(1 + zzDeep)
 	w.assertInvariant("pre")
 	// snapshot of the tables before the call
 	idTable := map[uint32]message.DataID{}
@@ -337,7 +337,7 @@ func zzC03aRead() {
 		chunk.UpstreamOrAlias = message.UpstreamAlias(a)
 		wantInfo, upOK = upTable[a]
 	}
-	ng := vf.Choose("chunk.groups", 3)
+	ng := vf.Choose("chunk.groups", 3+zzDeep)
 	type wantG struct {
 		id  message.DataID
 		pts []*message.DataPoint
